@@ -477,3 +477,25 @@ package rosmar
 //@   ensures [C10:OpenBucket.schema-once]      count("call:registerBucket") == 1 ==> (scanned(0) == 0 <==> count("call:Bucket.initializeSchema") == 1)
 //@   ensures [C10,C14:OpenBucket.rearms-expiry] err == nil && count("call:registerBucket") == 1 ==> (scanned(0) != 0 <==> count("call:Bucket._scheduleExpiration") == 1)
 //@   ensures [C20:OpenBucket.unlocked]         any: nolocks()
+
+// ---------------------------------------------------------------------------------------------------------------
+// collection+xattrs.go: the xattr writers
+
+//@ fn (*event).expandXattrMacros
+//@   modular
+//@   nullable mutateOpts
+//@
+//@ fn (*Collection).writeWithXattrs
+//@   nullable val ifCas exp mutateOpts
+//@   let r = old(doc(c.id, key))
+//@   let r2 = doc(c.id, key)
+//@   requires DocInv(r) && HlcInv(r) && IntOK(r)
+//@   requires !opts.preserveXattr && !opts.insertXattr
+//@   loop 1 invariant [C07:wwx.validate-loop] true
+//@   loop 1001 invariant [C07:wwx.preserve-loop] true
+//@   loop 1002 invariant [C07:wwx.apply-loop] true
+//@   ensures [C01:wwx.err-unchanged] err != nil ==> db == old(db)
+//@   ensures [C20:wwx.unlocked]      any: nolocks()
+//@
+//@ fn removeUserXattrs
+//@   loop 1 invariant [C05,C07:removeUserXattrs.loop] forall k: Str :: it[k] == (if visited[k] && !issys(k) then NOX else it0[k])
